@@ -442,6 +442,10 @@ func (r *Runner) replay(h *Harness, sp *sym.HarnessSpec, v *sym.Violation, path 
 		}
 	}
 	crashed := strings.Contains(out, "\npanic: ") || strings.HasPrefix(out, "panic: ") || strings.Contains(out, "fatal error:")
+	if strings.Contains(out, "test timed out") {
+		// the native run never finished: the disconnect / call under test hangs for real
+		return "reproduced", "native run hung (go test timeout): " + firstLineWith(out, "panic: test timed out")
+	}
 	if want == "deadlock" {
 		if strings.Contains(out, "test timed out") || strings.Contains(out, "all goroutines are asleep") {
 			return "reproduced", "native run hung: " + firstLineWith(out, "panic: ")
